@@ -371,6 +371,35 @@ impl World {
                 })?;
                 self.sh.objs[op.a as usize].w = None;
             }
+            K::UpOnly => {
+                let t = self.sh.objs[op.a as usize].w.expect("weak");
+                let sweeping = self.phase() == CollectionPhase::Sweeping;
+                let tdropped = self.sh.objs[t as usize].dropped;
+                let treach = self.sh.reach_mask()[t as usize];
+                let r = self.with_mutate(|w, mc, _, m| match w.node(m, op.a).wk().unwrap().upgrade(mc) {
+                    Some(g) => Ok(Some(g.id)),
+                    None => Ok(None),
+                })?;
+                let Caught::Done(r) = r else { viol!("api.panic", "unexpected injected panic") };
+                match r {
+                    Some(id) => {
+                        if tdropped {
+                            viol!("c05.upgrade_dropped", "upgrade returned a pointer to destructed object {t}");
+                        }
+                        if id != base + t as u32 {
+                            viol!("c05.upgrade_identity", "upgrade of weak to {t} reads id {id}");
+                        }
+                    }
+                    None => {
+                        if treach {
+                            viol!("c05.upgrade_reachable_failed", "upgrade failed for strongly reachable object {t}");
+                        }
+                        if !tdropped && !sweeping {
+                            viol!("c05.upgrade_spurious", "upgrade failed for undestructed object {t} outside Sweeping");
+                        }
+                    }
+                }
+            }
             K::UpStore | K::UpRoot | K::CellSetUp => {
                 let t = self.sh.objs[op.a as usize].w.expect("weak");
                 let sweeping = self.phase() == CollectionPhase::Sweeping;
